@@ -387,3 +387,22 @@ Proof.
     + left. split; [auto|]. left. destruct q; simpl in *; now subst.
     + right. auto.
 Qed.
+
+(* inside finding F8b nothing ELSE happens: what comes back is the dataset with every
+   blank-node-named graph folded into the default graph - no statement is lost, none invented *)
+Definition f8b_expected (D : dset) : qset :=
+  map (fun q => (fst q, if isb (snd q) then 0%N else snd q)) (d_quads D).
+
+Lemma jsonld_only_merges D : wfd D -> qseteq (parse_doc false (ser_jsonld D)) (f8b_expected D).
+Proof.
+  intros [_ [_ Hc]] q. rewrite jsonld_roundtrip_In. unfold f8b_expected. rewrite in_map_iff. split.
+  - intros [[H0 [H|[c [Hb [_ Hq]]]]]|[Hb [Hn [_ Hq]]]].
+    + exists (fst q, 0%N). split; [|exact H]. destruct q; simpl in *. now subst.
+    + exists (fst q, c). split; [|exact Hq]. simpl. rewrite Hb. destruct q; simpl in *. now subst.
+    + exists q. split; [|exact Hq]. destruct q as [t c]. simpl in *. now rewrite Hb.
+  - intros [[t c] [<- Hq]]. simpl. destruct (isb c) eqn:Hb.
+    + left. split; [reflexivity|]. right. exists c. split; [auto|]. split; [apply (Hc _ Hq)|exact Hq].
+    + destruct (N.eqb_spec c 0) as [->|Hn].
+      * left. split; [reflexivity|]. now left.
+      * right. simpl. split; [auto|]. split; [auto|]. split; [apply (Hc _ Hq)|exact Hq].
+Qed.
